@@ -32,24 +32,24 @@ ASSUMED_WRAPPERS = {
 
 
 def E_(g, u, v):
-    return g.fields["_E"][u, v]
+    return g.fields["@E"][u, v]
 
 
 def N_(g, u):
-    return g.fields["_nodes"][u]
+    return g.fields["@nodes"][u]
 
 
 def wf_graph(g):
     a, b = fresh("a", Atom), fresh("b", Atom)
-    f = z3.ForAll([a, b], z3.Implies(g.fields["_E"][a, b], z3.And(g.fields["_nodes"][a], g.fields["_nodes"][b])))
-    if not g.fields["_directed"]:
-        f = z3.And(f, z3.ForAll([a, b], g.fields["_E"][a, b] == g.fields["_E"][b, a]))
+    f = z3.ForAll([a, b], z3.Implies(g.fields["@E"][a, b], z3.And(g.fields["@nodes"][a], g.fields["@nodes"][b])))
+    if not g.fields["@directed"]:
+        f = z3.And(f, z3.ForAll([a, b], g.fields["@E"][a, b] == g.fields["@E"][b, a]))
     return f
 
 
 def new_graph(cls, tag, directed=None, latents=True):
     directed = (cls in DIRECTED) if directed is None else directed
-    g = Obj(cls, {"_nodes": fresh(tag + "_nodes", set_sort(Atom)), "_E": fresh(tag + "_E", RelSort), "_directed": directed})
+    g = Obj(cls, {"@nodes": fresh(tag + "@nodes", set_sort(Atom)), "@E": fresh(tag + "@E", RelSort), "@directed": directed})
     if latents:
         g.fields["latents"] = Coll("set", Atom, fresh(tag + "_latents", set_sort(Atom)))
     return g
@@ -58,7 +58,7 @@ def new_graph(cls, tag, directed=None, latents=True):
 def empty_graph(cls, directed=None):
     directed = (cls in DIRECTED) if directed is None else directed
     a, b = fresh("a", Atom), fresh("b", Atom)
-    g = Obj(cls, {"_nodes": empty_set(Atom), "_E": z3.Lambda([a, b], z3.BoolVal(False)), "_directed": directed})
+    g = Obj(cls, {"@nodes": empty_set(Atom), "@E": z3.Lambda([a, b], z3.BoolVal(False)), "@directed": directed})
     if cls in ("DAG", "BayesianNetwork", "PDAG"):
         g.fields["latents"] = Coll("set", Atom, empty_set(Atom))
     return g
@@ -75,6 +75,24 @@ IA = IA.create()
 
 def ia_fields(z):
     return IA.event1(z), IA.event2(z), IA.event3(z)
+
+
+# dynamic-network nodes: DynamicNode(name, time_slice) is an injective pairing on names
+DN = z3.Function("DynamicNode", Atom, I, Atom)
+dn_name = z3.Function("dn_name", Atom, Atom)
+dn_slice = z3.Function("dn_slice", Atom, I)
+
+
+def ensure_dn(ex):
+    if not getattr(ex, "_dn_ax", False):
+        ex._dn_ax = True
+        a, t = fresh("a", Atom), fresh("t", I)
+        ex.axioms.append(z3.ForAll([a, t], z3.And(dn_name(DN(a, t)) == a, dn_slice(DN(a, t)) == t), patterns=[DN(a, t)]))
+        ex.assumed.add("DynamicNode(name, slice) is modelled as an injective pairing on abstract names (projections dn_name / dn_slice)")
+
+
+def is_dn(n):
+    return n == DN(dn_name(n), dn_slice(n))
 
 
 class EdgeView(Coll):
@@ -176,7 +194,7 @@ class Lib:
     # ---- names
     def global_name(self, ex, name, st):
         if name in ("UndirectedGraph", "Independencies", "IndependenceAssertion", "DAG", "PDAG", "BayesianNetwork", "Graph",
-                    "DiGraph", "MarkovNetwork"):
+                    "DiGraph", "MarkovNetwork", "DynamicNode", "DynamicBayesianNetwork"):
             return ClassV(name)
         if name == "logger":
             return ModuleV("logger")
@@ -192,15 +210,15 @@ class Lib:
     def obj_attr(self, ex, o, attr, st):
         if o.cls in GRAPH_CLASSES:
             if attr == "nodes":
-                return Coll("iter", Atom, o.fields["_nodes"], nodup=True)
+                return Coll("iter", Atom, o.fields["@nodes"], nodup=True)
             if attr == "edges":
                 return self.edges(ex, o, st)
         return None
 
     def edges(self, ex, g, st):
-        E = g.fields["_E"]
+        E = g.fields["@E"]
         p = fresh("p", PairAA)
-        if g.fields["_directed"]:
+        if g.fields["@directed"]:
             return EdgeView(E, True, z3.Lambda([p], E[PairAA.accessor(0, 0)(p), PairAA.accessor(0, 1)(p)]))
         # undirected edges(): every edge once, in an orientation fixed by an unknown listing order
         tok = fresh("eord", Tok)
@@ -233,15 +251,29 @@ class Lib:
 
     def obj_contains(self, ex, o, item, st):
         if o.cls in GRAPH_CLASSES:
-            return o.fields["_nodes"][z3_of(item)]
+            return o.fields["@nodes"][z3_of(item)]
         return None
 
     def obj_iter(self, ex, o, st):
         if o.cls in GRAPH_CLASSES:
-            return Coll("iter", Atom, o.fields["_nodes"], nodup=True)
+            return Coll("iter", Atom, o.fields["@nodes"], nodup=True)
         return None
 
     def subscript(self, ex, o, k, st):
+        if getattr(ex, "dynamic_nodes", False) and isinstance(o, Scalar) and o.z.sort() == Atom and isinstance(k, Scalar) \
+                and z3.is_int_value(z3.simplify(k.z)):
+            ensure_dn(ex)
+            i = z3.simplify(k.z).as_long()
+            if i == 0:
+                return Scalar(dn_name(o.z))
+            if i == 1:
+                return Scalar(dn_slice(o.z))
+        return None
+
+    def unpack_hook(self, ex, v, n, st):
+        if getattr(ex, "dynamic_nodes", False) and isinstance(v, Scalar) and v.z.sort() == Atom and n == 2:
+            ensure_dn(ex)
+            return [Scalar(dn_name(v.z)), Scalar(dn_slice(v.z))]
         return None
 
     def binop(self, ex, op, a, b, st):
@@ -255,6 +287,9 @@ class Lib:
                 g.fields["cpds"] = Coll("list", Opaque, None, items=[])
                 g.fields["__opaque__"] = {"add_cpds": OpaqueFn("add_cpds", Opaque, pure=False)}
             return g
+        if name == "DynamicNode" and len(args) == 2:
+            ensure_dn(ex)
+            return Scalar(DN(z3_of(args[0]), z3_of(args[1])), "DynamicNode")
         if name == "Independencies" and not args and not kwargs:
             return Obj("Independencies", {"independencies": Coll("list", IA, None, items=[])})
         if name in ("MarkovNetwork", "UndirectedGraph") and len(args) == 1 and not kwargs:
@@ -419,13 +454,13 @@ class Lib:
         if name in ("nx.has_path", "networkx.has_path"):
             g, u, v = args[0], z3_of(args[1]), z3_of(args[2])
             ex.oblige(st, z3.And(N_(g, u), N_(g, v)), "call.nx.has_path.nodes-present")
-            if not g.fields["_directed"]:
+            if not g.fields["@directed"]:
                 raise Unsupported("has_path on undirected graph")
-            return Scalar(self.theory(ex).path(g.fields["_E"])(u, v))
+            return Scalar(self.theory(ex).path(g.fields["@E"])(u, v))
         if name in ("nx.dfs_preorder_nodes", "nx.descendants"):
             g, u = args[0], z3_of(args[1])
             ex.oblige(st, N_(g, u), f"call.{name}.node-present")
-            P = self.theory(ex).path(g.fields["_E"])
+            P = self.theory(ex).path(g.fields["@E"])
             x = fresh("x", Atom)
             if name.endswith("descendants"):
                 return Coll("set", Atom, z3.Lambda([x], z3.And(P(u, x), x != u)))
@@ -449,8 +484,8 @@ class Lib:
             ex.oblige(st, z3.And(N_(g, u), N_(g, v)), "call.nx.all_simple_paths.nodes-present")
             # contract (directed ACYCLIC graphs, u != v): the result is a collection of node sequences, each of
             # length >= 2, and one of them is longer than 2 iff some path u -> w ~> v avoids the direct edge
-            ex.oblige(st, z3.And(self.theory(ex).acyclic(g.fields["_E"]), u != v), "call.nx.all_simple_paths.acyclic-graph")
-            SP = self.theory(ex).simple_paths(g.fields["_E"])(u, v)
+            ex.oblige(st, z3.And(self.theory(ex).acyclic(g.fields["@E"]), u != v), "call.nx.all_simple_paths.acyclic-graph")
+            SP = self.theory(ex).simple_paths(g.fields["@E"])(u, v)
             return Coll("iter", PathSeq, SP, nodup=True)
         return NotImplemented
 
@@ -464,7 +499,7 @@ class Lib:
             for c in rest:
                 if (c, name) in ASSUMED_WRAPPERS:
                     ex.assumed.add(f"{c}.{name} is a thin wrapper forwarding to networkx (assumed contract = networkx contract)")
-                    c = "DiGraph" if target.fields["_directed"] else "Graph"
+                    c = "DiGraph" if target.fields["@directed"] else "Graph"
                 r = self.graph_method(ex, c, target, name, args, kwargs, st)
                 if r is not NotImplemented:
                     return r
@@ -472,23 +507,23 @@ class Lib:
         if isinstance(recv, Obj) and recv.cls in GRAPH_CLASSES:
             if (cname, name) in ASSUMED_WRAPPERS:
                 ex.assumed.add(f"{cname}.{name} is a thin wrapper forwarding to networkx (assumed contract = networkx contract)")
-                return self.graph_method(ex, "DiGraph" if recv.fields["_directed"] else "Graph", recv, name, args, kwargs, st)
+                return self.graph_method(ex, "DiGraph" if recv.fields["@directed"] else "Graph", recv, name, args, kwargs, st)
             if cname in ("DiGraph", "Graph"):
                 return self.graph_method(ex, cname, recv, name, args, kwargs, st)
         return NotImplemented
 
     def order_fn(self, ex, g, kind):
         """adjacency lists are reported in an order fixed by the (unmodelled) insertion history of this graph object"""
-        key = ("ordfn", id(ex), g.fields["_E"].get_id(), kind)
+        key = ("ordfn", id(ex), g.fields["@E"].get_id(), kind)
         if key not in self.card_fns:
-            self.card_fns[key] = (g.fields["_E"], z3.Function(f"order_{kind}!{len(self.card_fns)}", Atom, Tok))
+            self.card_fns[key] = (g.fields["@E"], z3.Function(f"order_{kind}!{len(self.card_fns)}", Atom, Tok))
         return self.card_fns[key][1]
 
     def graph_method(self, ex, cname, g, name, args, kwargs, st):
         if cname not in ("DiGraph", "Graph"):
             return NotImplemented
         F = g.fields
-        E, Nn, directed = F["_E"], F["_nodes"], F["_directed"]
+        E, Nn, directed = F["@E"], F["@nodes"], F["@directed"]
         x, y = fresh("a", Atom), fresh("b", Atom)
         tag = f"nx.{cname}.{name}"
         if name == "nodes" and not args:
@@ -517,7 +552,7 @@ class Lib:
             return Scalar(Nn[z3_of(args[0])])
         if name == "add_node":
             n = z3_of(args[0] if args else kwargs["node"])
-            F["_nodes"] = z3.Store(Nn, n, True)
+            F["@nodes"] = z3.Store(Nn, n, True)
             lat = kwargs.get("latent", args[2] if len(args) > 2 else None)
             if lat is not None and "latents" in F:
                 t = ex.truth_z(st, lat)
@@ -527,7 +562,7 @@ class Lib:
         if name == "add_nodes_from":
             c = ex.as_coll(args[0] if args else kwargs["nodes"], st)
             if c.mem is not None:
-                F["_nodes"] = union(Nn, c.mem, Atom)
+                F["@nodes"] = union(Nn, c.mem, Atom)
             lat = kwargs.get("latent")
             if lat is not None:
                 raise Unsupported("add_nodes_from(latent=...)")
@@ -536,10 +571,10 @@ class Lib:
         if name == "add_edge":
             u, v = z3_of(args[0]), z3_of(args[1])
             if directed:
-                F["_E"] = z3.Lambda([x, y], z3.Or(E[x, y], z3.And(x == u, y == v)))
+                F["@E"] = z3.Lambda([x, y], z3.Or(E[x, y], z3.And(x == u, y == v)))
             else:
-                F["_E"] = z3.Lambda([x, y], z3.Or(E[x, y], z3.And(x == u, y == v), z3.And(x == v, y == u)))
-            F["_nodes"] = z3.Store(z3.Store(Nn, u, True), v, True)
+                F["@E"] = z3.Lambda([x, y], z3.Or(E[x, y], z3.And(x == u, y == v), z3.And(x == v, y == u)))
+            F["@nodes"] = z3.Store(z3.Store(Nn, u, True), v, True)
             ex.used_lib.add(tag)
             return NONE
         if name == "add_edges_from":
@@ -548,42 +583,42 @@ class Lib:
                 return NONE
             mk = tuple_sort([Atom, Atom]).mk
             if directed:
-                F["_E"] = z3.Lambda([x, y], z3.Or(E[x, y], c.mem[mk(x, y)]))
+                F["@E"] = z3.Lambda([x, y], z3.Or(E[x, y], c.mem[mk(x, y)]))
             else:
-                F["_E"] = z3.Lambda([x, y], z3.Or(E[x, y], c.mem[mk(x, y)], c.mem[mk(y, x)]))
-            F["_nodes"] = z3.Lambda([x], z3.Or(Nn[x], z3.Exists([y], z3.Or(c.mem[mk(x, y)], c.mem[mk(y, x)]))))
+                F["@E"] = z3.Lambda([x, y], z3.Or(E[x, y], c.mem[mk(x, y)], c.mem[mk(y, x)]))
+            F["@nodes"] = z3.Lambda([x], z3.Or(Nn[x], z3.Exists([y], z3.Or(c.mem[mk(x, y)], c.mem[mk(y, x)]))))
             ex.used_lib.add(tag)
             return NONE
         if name == "remove_edge":
             u, v = z3_of(args[0]), z3_of(args[1])
             ex.oblige(st, E[u, v], "call.nx.remove_edge.edge-present")
             if directed:
-                F["_E"] = z3.Lambda([x, y], z3.And(E[x, y], z3.Not(z3.And(x == u, y == v))))
+                F["@E"] = z3.Lambda([x, y], z3.And(E[x, y], z3.Not(z3.And(x == u, y == v))))
             else:
-                F["_E"] = z3.Lambda([x, y], z3.And(E[x, y], z3.Not(z3.And(x == u, y == v)), z3.Not(z3.And(x == v, y == u))))
+                F["@E"] = z3.Lambda([x, y], z3.And(E[x, y], z3.Not(z3.And(x == u, y == v)), z3.Not(z3.And(x == v, y == u))))
             ex.used_lib.add(tag)
             return NONE
         if name == "remove_node":
             n = z3_of(args[0])
             ex.oblige(st, Nn[n], "call.nx.remove_node.node-present")
-            F["_nodes"] = z3.Store(Nn, n, False)
-            F["_E"] = z3.Lambda([x, y], z3.And(E[x, y], x != n, y != n))
+            F["@nodes"] = z3.Store(Nn, n, False)
+            F["@E"] = z3.Lambda([x, y], z3.And(E[x, y], x != n, y != n))
             ex.used_lib.add(tag)
             return NONE
         if name == "to_undirected":
             ex.used_lib.add(tag)
-            return Obj("Graph", {"_nodes": Nn, "_E": z3.Lambda([x, y], z3.Or(E[x, y], E[y, x])), "_directed": False})
+            return Obj("Graph", {"@nodes": Nn, "@E": z3.Lambda([x, y], z3.Or(E[x, y], E[y, x])), "@directed": False})
         if name == "subgraph":
             c = ex.as_coll(args[0] if args else kwargs["nodes"], st)
             ex.used_lib.add(tag)
-            f = {"_nodes": inter(Nn, c.mem, Atom), "_E": z3.Lambda([x, y], z3.And(E[x, y], c.mem[x], c.mem[y])), "_directed": directed}
+            f = {"@nodes": inter(Nn, c.mem, Atom), "@E": z3.Lambda([x, y], z3.And(E[x, y], c.mem[x], c.mem[y])), "@directed": directed}
             if "latents" in F:
                 # networkx subgraph views of pgmpy graphs are built through __class__() and do not carry `latents`
                 f["latents"] = Coll("set", Atom, empty_set(Atom))
             return Obj(g.cls, f)
         if name == "copy":
             ex.used_lib.add(tag)
-            f = {"_nodes": Nn, "_E": E, "_directed": directed}
+            f = {"@nodes": Nn, "@E": E, "@directed": directed}
             if "latents" in F:
                 f["latents"] = Coll("set", Atom, empty_set(Atom))
             return Obj(g.cls, f)
